@@ -243,6 +243,42 @@ def alias_workload(res, ctx, rng):
             res.count('aliasing_records')
 
 
+def shared_objects_workload(res, ctx, rng):
+    """Records whose nested values are the SAME Python objects (what plistlib returns for a binary plist that references
+    one object several times): the decoder gets a shallow copy of each record, so the nested time-zone / message /
+    backtrace dictionaries are shared between records and between fields of one record."""
+    from pykdebugparser.os_log_event import OsLogEvent
+    strings = logs.Strings(rng)
+    for _ in range(ctx.pick(30, 600)):
+        raws = [logs.gen_event(rng, strings, [k for k in logs.OPTIONAL_KEYS if k != 'tai' and rng.random() < 0.5])
+                for _ in range(rng.randrange(2, 5))]
+        shared = {k: logs.fresh(next((r[k] for r in raws if k in r), None)) for k in ('utz', 'dm', 'bt')}
+        for r in raws:
+            for k in ('utz', 'dm', 'bt'):
+                if k in r and shared[k] is not None and rng.random() < 0.7:
+                    r[k] = shared[k]
+            for k in ('lsutz', 'leutz'):
+                if k in r and rng.random() < 0.7:
+                    r[k] = r['utz']
+        inv = strings.inverted()
+        expected = [logs.ref_decode(logs.fresh(r), inv) for r in raws]
+        for i, (r, exp) in enumerate(zip(raws, expected)):
+            res.case(('shared', i, repr(r)))
+            try:
+                got = OsLogEvent.from_raw_log_event(dict(r), inv)       # shallow: nested objects stay shared
+            except Exception as x:
+                res.violation(f'c16-raises-{core.exc_name(x)}-shared-objects', f'record {i} of {len(raws)} records that share '
+                              f'nested objects: {x!r}', {'raws': raws})
+                break
+            bad = logs.compare(got, exp)
+            res.count('records_sharing_nested_objects')
+            if bad:
+                res.violation('c16-field-' + bad[0][0].split('.')[0], f'record {i} of {len(raws)} records that share nested '
+                              f'objects (as a binary plist loads them): {[(b[0], str(b[1])[:80], str(b[2])[:80]) for b in bad[:4]]}',
+                              {'raws': raws})
+                break
+
+
 def end_to_end(res, ctx, rng):
     """The same records through a v3 file and the container parser."""
     from pykdebugparser.kd_buf_parser import KdBufParser
@@ -281,6 +317,7 @@ def run(ctx):
     dm_workload(res, ctx, rng)
     ti_workload(res, ctx, rng)
     alias_workload(res, ctx, rng)
+    shared_objects_workload(res, ctx, rng)
     end_to_end(res, ctx, rng)
     recheck_retained(res)
     if ctx.shard == 0:
